@@ -8,6 +8,7 @@ in-memory node (a node the next flush writes) whose closed key range contains on
 modified keys `M` — and so on below.  Insert and Delete (without a change of height) preserve it
 when their key is added to `M`.
 -/
+set_option linter.unusedSimpArgs false
 namespace Mast
 namespace T
 
@@ -232,6 +233,168 @@ theorem ins_DR (M : List Nat) (k v : Nat) : ∀ (t : T) (s : Nat) (lo hi : Optio
             subst he
             exact ⟨link_hit hl (by simp; omega) (ihc s lo (some k') c' (DR_child h.1) hl (by simp; omega) hc),
               DR_mono mono _ _ _ h.2⟩
+
+/-- `mergeNodes`: the keys of `a` are not above `k`, those of `b` not below; every node built
+    along the merged spine has `k` in its range -/
+theorem mergeRow_DR (M : List Nat) (k : Nat) : ∀ (a b : T) (lo hi : Option Nat),
+    DR (k :: M) lo (some k) a → DR (k :: M) (some k) hi b → loLe lo k → leHi k hi →
+    (∀ e ∈ toList a, e.1 ≤ k) → (∀ e ∈ toList b, k ≤ e.1) → DR (k :: M) lo hi (mergeRow a b) := by
+  intro a
+  induction a with
+  | nil =>
+    intro b lo hi _ hb hl _ _ _
+    simp only [mergeRow]
+    exact DR_widen _ b _ _ _ _ hb (fun m hm => by cases lo <;> simp_all <;> omega) (fun _ x => x)
+  | cons p c k1 v rest _ ihr =>
+    intro b lo hi ha hb hl hh hka hkb
+    simp only [mergeRow]
+    have hk1 : k1 ≤ k := hka (k1, v) (by simp [toList])
+    exact ⟨ha.1, ihr b (some k1) hi ha.2 hb (by simpa using hk1) hh
+      (fun e he => hka e (by simp [toList, he])) hkb⟩
+  | last p c ih =>
+    intro b lo hi ha hb hl hh hka hkb
+    have widenHi : DR (k :: M) lo hi (last p c) :=
+      DR_widen _ _ _ _ _ _ ha (fun _ x => x) (fun m hm => by cases hi <;> simp_all <;> omega)
+    have hc : DR (k :: M) lo (some k) c := DR_child ha
+    cases b with
+    | nil => simpa [mergeRow] using widenHi
+    | last p2 c2 =>
+      simp only [mergeRow]
+      by_cases h1 : c.isNil = true
+      · simp only [h1, if_true]
+        exact DR_widen _ _ _ _ _ _ hb (fun m hm => by cases lo <;> simp_all <;> omega) (fun _ x => x)
+      · by_cases h2 : c2.isNil = true
+        · simp only [h1, h2, if_false, if_true]; exact widenHi
+        · simp only [h1, h2, if_false]
+          exact link_hit hl hh (ih c2 lo hi hc (DR_child hb) hl hh
+            (fun e he => hka e (by simpa [toList] using he)) (fun e he => hkb e (by simpa [toList] using he)))
+    | cons p2 c2 k2 v2 r2 =>
+      have hk2 : k ≤ k2 := hkb (k2, v2) (by simp [toList])
+      simp only [mergeRow]
+      by_cases h1 : c.isNil = true
+      · simp only [h1, if_true]
+        exact DR_widen _ _ _ _ _ _ hb (fun m hm => by cases lo <;> simp_all <;> omega) (fun _ x => x)
+      · by_cases h2 : c2.isNil = true
+        · simp only [h1, h2, if_false, if_true]
+          refine ⟨?_, hb.2⟩
+          have := DR_widen _ _ _ _ lo (some k2) ha (fun _ x => x) (fun m hm => by simp_all; omega)
+          exact this
+        · simp only [h1, h2, if_false]
+          exact ⟨link_hit hl (by simpa using hk2) (ih c2 lo (some k2) hc (DR_child hb.1) hl (by simpa using hk2)
+            (fun e he => hka e (by simpa [toList] using he)) (fun e he => hkb e (by simp [toList, he]))), hb.2⟩
+
+/-- `deleteEntry`: the entry `k` between the link `(p, c)` and the row `r` is removed -/
+theorem joinAt_DR (M : List Nat) (k : Nat) (p : Bool) (c : T) : ∀ (r : T) (lo hi : Option Nat),
+    DR (k :: M) lo (some k) (last p c) → DR (k :: M) (some k) hi r → loLe lo k → leHi k hi →
+    (∀ e ∈ toList c, e.1 ≤ k) → (∀ e ∈ toList r, k ≤ e.1) → DR (k :: M) lo hi (joinAt p c r) := by
+  intro r lo hi ha hb hl hh hka hkb
+  have hc : DR (k :: M) lo (some k) c := DR_child ha
+  cases r with
+  | nil => trivial
+  | last p2 c2 =>
+    simp only [joinAt]
+    by_cases h1 : c.isNil = true
+    · simp only [h1, if_true]
+      exact DR_widen _ _ _ _ _ _ hb (fun m hm => by cases lo <;> simp_all <;> omega) (fun _ x => x)
+    · by_cases h2 : c2.isNil = true
+      · simp only [h1, h2, if_false, if_true]
+        exact DR_widen _ _ _ _ _ _ ha (fun _ x => x) (fun m hm => by cases hi <;> simp_all <;> omega)
+      · simp only [h1, h2, if_false]
+        exact link_hit hl hh (mergeRow_DR M k c c2 lo hi hc (DR_child hb) hl hh hka
+          (fun e he => hkb e (by simpa [toList] using he)))
+  | cons p2 c2 k2 v2 r2 =>
+    have hk2 : k ≤ k2 := hkb (k2, v2) (by simp [toList])
+    simp only [joinAt]
+    by_cases h1 : c.isNil = true
+    · simp only [h1, if_true]
+      exact DR_widen _ _ _ _ _ _ hb (fun m hm => by cases lo <;> simp_all <;> omega) (fun _ x => x)
+    · by_cases h2 : c2.isNil = true
+      · simp only [h1, h2, if_false, if_true]
+        exact ⟨DR_widen _ _ _ _ lo (some k2) ha (fun _ x => x) (fun m hm => by simp_all; omega), hb.2⟩
+      · simp only [h1, h2, if_false]
+        exact ⟨link_hit hl (by simpa using hk2) (mergeRow_DR M k c c2 lo (some k2) hc (DR_child hb.1) hl
+          (by simpa using hk2) hka (fun e he => hkb e (by simp [toList, he]))), hb.2⟩
+
+/-- **Delete** keeps the invariant, with its key added to the modified keys -/
+theorem del_DR (M : List Nat) (k : Nat) : ∀ (t : T) (s : Nat) (lo hi : Option Nat) (t' : T), DR M lo hi t →
+    Sorted (toList t) → loLe lo k → leHi k hi → del k s t = some t' → DR (k :: M) lo hi t' := by
+  have mono : ∀ m ∈ M, m ∈ k :: M := fun m hm => by simp [hm]
+  have keep : ∀ {lo hi : Option Nat} {p : Bool} {c : T},
+      (c.isNil = true ∨ (p = true ∧ AllP c) ∨ (p = false ∧ Hit M lo hi ∧ DR M lo hi c)) →
+      (c.isNil = true ∨ (p = true ∧ AllP c) ∨ (p = false ∧ Hit (k :: M) lo hi ∧ DR (k :: M) lo hi c)) := by
+    intro lo hi p c h
+    rcases h with h1 | h1 | ⟨h1, h2, h3⟩
+    · exact Or.inl h1
+    · exact Or.inr (Or.inl h1)
+    · exact Or.inr (Or.inr ⟨h1, hit_mono mono h2, DR_mono mono _ _ _ h3⟩)
+  intro t
+  induction t with
+  | nil => intro s lo hi t' _ _ _ _ he; cases s <;> simp [del] at he
+  | last p c ih =>
+    intro s lo hi t' h hs hl hh he
+    cases s with
+    | zero => simp [del] at he
+    | succ s =>
+      simp only [del] at he
+      cases hc : del k s c with
+      | none => simp [hc] at he
+      | some c' =>
+        simp only [hc, Option.map_some, Option.some.injEq] at he
+        subst he
+        exact link_hit hl hh (DR_mk (ih s lo hi c' (DR_child h) (by simpa [toList] using hs) hl hh hc))
+  | cons p c k' v' r ihc ihr =>
+    intro s lo hi t' h hs hl hh he
+    simp only [toList] at hs
+    obtain ⟨sc, sr, hcr⟩ := sorted_append hs
+    have sr' := sorted_tail sr
+    have recR : ∀ s, k' < k → ∀ r', del k s r = some r' → DR (k :: M) lo hi (cons p c k' v' r') := by
+      intro s hlt r' hr
+      exact ⟨keep h.1, ihr s (some k') hi r' h.2 sr' (by simp; omega) hh hr⟩
+    cases s with
+    | zero =>
+      simp only [del] at he
+      by_cases h1 : k' < k
+      · simp only [h1, if_true] at he
+        cases hr : del k 0 r with
+        | none => simp [hr] at he
+        | some r' =>
+          simp only [hr, Option.map_some, Option.some.injEq] at he
+          subst he
+          exact recR 0 h1 r' hr
+      · by_cases h2 : k' = k
+        · subst h2
+          simp only [Nat.lt_irrefl, if_false, if_true, Option.some.injEq] at he
+          subst he
+          apply joinAt_DR M k' p c r lo hi (keep h.1) (DR_mono mono _ _ _ h.2) hl hh
+          · intro e he
+            have := hcr e he (k', v') (by simp)
+            simp at this; omega
+          · intro e he
+            have : Sorted ((k', v') :: toList r) := sr
+            simp only [Sorted, List.pairwise_cons] at this
+            have := this.1 e he
+            omega
+        · simp [h1, h2] at he
+    | succ s =>
+      simp only [del] at he
+      by_cases h1 : k' < k
+      · simp only [h1, if_true] at he
+        cases hr : del k (s + 1) r with
+        | none => simp [hr] at he
+        | some r' =>
+          simp only [hr, Option.map_some, Option.some.injEq] at he
+          subst he
+          exact recR (s + 1) h1 r' hr
+      · by_cases h2 : k' = k
+        · simp [h2] at he
+        · simp only [h1, h2, if_false] at he
+          cases hc : del k s c with
+          | none => simp [hc] at he
+          | some c' =>
+            simp only [hc, Option.map_some, Option.some.injEq] at he
+            subst he
+            exact ⟨link_hit hl (by simp; omega)
+              (DR_mk (ihc s lo (some k') c' (DR_child h.1) sc hl (by simp; omega) hc)), DR_mono mono _ _ _ h.2⟩
 
 end T
 end Mast
